@@ -2272,3 +2272,75 @@ Example names_ok_tainted_dim :
   In "i_dim" (T1 ex_d_s) /\ names_ok ex_d_s ex_g_s = true /\ graph_outputs_of ex_d_s ex_g_s = true
   /\ exists f, generate_ir None ex_d_s ex_g_s GlueGen.KernelType_evaluate = Some f.
 Proof. split; [vm_compute; tauto|]. split; [vm_compute; reflexivity|]. split; [vm_compute; reflexivity|]. eexists. vm_compute. reflexivity. Qed.
+
+(** * 16. fuel: a [Some] answer is the answer for every larger fuel *)
+Definition ole {A} (x y : option A) : Prop := forall a, x = Some a -> y = Some a.
+Lemma ole_refl {A} (x : option A) : ole x x. Proof. intros a H; exact H. Qed.
+Lemma ole_bind {A B} (x y : option A) (f g : A -> option B) :
+  ole x y -> (forall a, ole (f a) (g a)) -> ole (obind x f) (obind y g).
+Proof. intros Hx Hf b E. destruct x as [a|]; cbn in E; [|discriminate]. rewrite (Hx a eq_refl). cbn. apply Hf. exact E. Qed.
+Lemma ole_ofold {A B} (f g : B -> A -> option B) : (forall acc x, ole (f acc x) (g acc x)) -> forall l i, ole (ofold f l i) (ofold g l i).
+Proof.
+  intros H. induction l as [|x l IH]; intros i r E; cbn in *; [exact E|].
+  destruct (f i x) as [a|] eqn:Ef; [|discriminate]. rewrite (H i x a Ef). apply IH. exact E.
+Qed.
+Lemma ole_py_while {S} (b : S -> option (S * bool)) : forall n n', (n <= n')%nat -> forall s, ole (py_while n b s) (py_while n' b s).
+Proof.
+  induction n as [|n IH]; intros n' Hn s r E; cbn in E; [discriminate|].
+  destruct n' as [|n']; [lia|]. cbn. destruct (b s) as [[s' [|]]|]; try discriminate; [exact E|]. apply (IH n'); [lia | exact E].
+Qed.
+
+Lemma subgraphs_mono fuel fuel' g : (fuel <= fuel')%nat -> ole (generate_subgraphs fuel g) (generate_subgraphs fuel' g).
+Proof.
+  intros H. unfold generate_subgraphs. cbv zeta. apply ole_bind; [apply ole_refl|]. intros dims.
+  apply ole_bind; [apply ole_py_while; exact H | intros a; apply ole_refl].
+Qed.
+
+Ltac ol db :=
+  cbv beta;
+  first
+  [ match goal with |- ole ?x ?y => constr_eq x y; apply ole_refl end
+  | lazymatch goal with
+    | |- ole (obind _ _) (obind _ _) => apply ole_bind; [ol db | let a := fresh "a" in intros a; ol db]
+    | |- ole (ofold _ ?l _) (ofold _ _ _) => apply ole_ofold; let acc := fresh "acc" in let x := fresh "x" in intros acc x; ol db
+    | |- ole (match ?x with Some _ => _ | None => _ end) _ => destruct x; ol db
+    | |- ole (if ?c then _ else _) _ => destruct c; ol db
+    | |- ole (let '(_, _) := ?p in _) _ => destruct p; ol db
+    | |- _ => first [ solve [db] | idtac ]
+    end ].
+
+Lemma iteration_mono fuel fuel' rec_ rec_' self o k :
+  (fuel <= fuel')%nat -> (forall g o' , ole (rec_ g o' k) (rec_' g o' k)) ->
+  ole (to_ir_iteration_variable fuel rec_ self o k) (to_ir_iteration_variable fuel' rec_' self o k).
+Proof.
+  intros Hf Hr. unfold to_ir_iteration_variable. destruct self as [e|iv out nxt|nm ts]; [intros a E; discriminate E| |intros a E; discriminate E]. cbv zeta.
+  ol ltac:(eauto using subgraphs_mono).
+Qed.
+
+Lemma sum_mono rec_ rec_' self o k :
+  (forall g o', ole (rec_ g o' k) (rec_' g o' k)) -> ole (to_ir_sum rec_ self o k) (to_ir_sum rec_' self o k).
+Proof.
+  intros Hr. unfold to_ir_sum. destruct self as [e|iv out nxt|nm ts]; [intros a E; discriminate E|intros a E; discriminate E|]. cbv zeta.
+  ol ltac:(eauto).
+Qed.
+
+Theorem family_mono fuel fuel' k : (fuel <= fuel')%nat -> forall n n', (n <= n')%nat -> forall g o,
+  ole (to_ir_iteration_graph fuel n g o k) (to_ir_iteration_graph fuel' n' g o k).
+Proof.
+  intros Hf. induction n as [|n IH]; intros n' Hn g o; [intros a E; discriminate E|].
+  destruct n' as [|n']; [lia|]. cbn [to_ir_iteration_graph]. destruct g.
+  - apply ole_refl.
+  - apply iteration_mono; [exact Hf|]. intros g' o'. apply IH. lia.
+  - apply sum_mono. intros g' o'. apply IH. lia.
+Qed.
+
+Theorem generate_ir_fuel_mono cap d g k m m' : (m <= m')%nat -> ole (generate_ir_fuel cap m d g k) (generate_ir_fuel cap m' d g k).
+Proof.
+  intros H. unfold generate_ir_fuel. cbv zeta.
+  ol ltac:(eauto using family_mono).
+Qed.
+
+(** the [Some] half of [fuel_sufficient]: an answer obtained with the fuel [ig_fuel g] is the answer for every larger fuel *)
+Theorem fuel_stable cap d g k f :
+  generate_ir_fuel cap (ig_fuel g) d g k = Some f -> forall m, (ig_fuel g <= m)%nat -> generate_ir_fuel cap m d g k = Some f.
+Proof. intros E m H. exact (generate_ir_fuel_mono cap d g k _ _ H f E). Qed.
